@@ -19,6 +19,11 @@
 //
 //	new <chunks> <sibHot> <sibCold>   fresh world: file F in hot (registered hot) + optional siblings
 //	mig|rec|scan|cycle <oracle>        MigrateTier(hot,cold) | ReconcileOrphanedFiles | ScanAndRegisterFiles | RunMigrationCycle
+//	tick <sec>                         virtual time passes (metadata.go is clockified: tier-cache TTL)
+//	query                              a query in the RUNNING process: real routing through the long-lived MetadataStore's
+//	                                   30 s tier cache (GetTiersForMeasurement + buildMultiTierReadParquet), executed by DuckDB
+//	addmig <k> older|newer             k more files of the measurement ingested + migrated cleanly by the real MigrateFile,
+//	                                   earlier / later than the tracked file (ReconcileOrphanedFiles walks newest first)
 //	age                                > 48 h pass without tiering activity (migrated_at moved back 49 h)
 //	obs                                bytes on disk per tier, tier_files row, open tier_migrations rows, and what the
 //	                                   real query path returns: FROM-expression of the real QueryHandler
@@ -51,6 +56,7 @@ import (
 	"github.com/basekick-labs/arc/internal/storage"
 	"github.com/basekick-labs/arc/internal/tiering"
 	"github.com/basekick-labs/arc/internal/verif/vh"
+	"github.com/basekick-labs/arc/internal/verifclock"
 	sqlite3 "github.com/mattn/go-sqlite3"
 	"github.com/rs/zerolog"
 )
@@ -458,6 +464,7 @@ type world struct {
 	sibColT tmpl
 	chunk   int
 	caseNo  int
+	extraNo int
 
 	// per case
 	root, hotDir, coldDir, metaPath string
@@ -531,6 +538,7 @@ func (w *world) newCase(ti int, sibHot, sibCold bool) {
 	meas = fmt.Sprintf("m%d", w.caseNo)
 	fRel = dbName + "/" + meas + "/2024/01/01/00/f_daily.parquet"
 	cur = &ctl{target: fRel}
+	verifclock.Set(time.Now().UnixNano()) // metadata.go is clockified: the tier-cache TTL runs on this clock
 	defer func() { cur.nChunks, cur.srcFull = w.t.chunks, filepath.Join(w.hotDir, fRel) }()
 	if w.root == "" {
 		w.root = filepath.Join(w.base, "world")
@@ -584,6 +592,13 @@ func (w *world) runOp(kind, orc string) (string, []string) {
 		case "rec":
 			f, d, e := w.mgr.VerifMigrator().ReconcileOrphanedFiles(ctx)
 			return fmt.Sprintf("rec=%d/%d/%d", f, d, e)
+		case "tick":
+			var sec int
+			fmt.Sscan(orc, &sec)
+			verifclock.Advance(time.Duration(sec) * time.Second)
+			return "ok"
+		case "addmig":
+			return w.addMig(orc)
 		case "age":
 			// more than the 48 h reconcile window passes: the only clock the tiering code reads for the
 			// window is SQLite's CURRENT_TIMESTAMP stored in migrated_at, so ageing = moving it back 49 h
@@ -610,6 +625,47 @@ func (w *world) runOp(kind, orc string) (string, []string) {
 		w.restart()
 	}
 	return res, trace
+}
+
+// warmQuery: a query in the RUNNING process — the tier routing goes through the long-lived
+// MetadataStore of w.mgr (30 s per-measurement tier cache under the virtual clock).
+func (w *world) warmQuery() obsv {
+	var o obsv
+	qm := w.mgr.VerifQueryView(w.hot.LocalBackend, w.cold.LocalBackend)
+	o.expr = api.VerifTieredFromExpr(w.hot.LocalBackend, qm, dbName, meas)
+	w.evalExpr(&o)
+	return o
+}
+
+// addMig "<k> older|newer": k more files of the measurement are ingested and migrated cleanly by the
+// real MigrateFile; their migrated_at is placed before (older) or after (newer) the tracked file's.
+func (w *world) addMig(arg string) string {
+	var k int
+	var pos string
+	fmt.Sscan(arg, &k, &pos)
+	ctx := context.Background()
+	var paths []string
+	for i := 0; i < k; i++ {
+		w.extraNo++
+		rel := fmt.Sprintf("%s/%s/2024/01/02/%02d/x%d_daily.parquet", dbName, meas, w.extraNo%24, w.extraNo)
+		writeFile(filepath.Join(w.hotDir, rel), w.sibColT.bytes)
+		pt := time.Date(2024, 1, 2, w.extraNo%24, 0, 0, 0, time.UTC)
+		must(w.mgr.RecordNewFile(ctx, &tiering.FileMetadata{Path: rel, Database: dbName, Measurement: meas, PartitionTime: pt, SizeBytes: int64(len(w.sibColT.bytes))}))
+		must(w.mgr.VerifMigrator().MigrateFile(ctx, tiering.MigrationCandidate{Path: rel, Database: dbName, Measurement: meas,
+			PartitionTime: pt, SizeBytes: int64(len(w.sibColT.bytes)), CurrentTier: tiering.TierHot, TargetTier: tiering.TierCold}))
+		paths = append(paths, rel)
+	}
+	for _, p := range paths {
+		if pos == "older" {
+			_, err := w.mdb.Exec("UPDATE tier_files SET migrated_at = datetime('now', '-2 hours') WHERE path = ?", p)
+			must(err)
+		}
+	}
+	if pos == "newer" && k > 0 {
+		_, err := w.mdb.Exec("UPDATE tier_files SET migrated_at = datetime(migrated_at, '-1 hours') WHERE migrated_at IS NOT NULL AND path = ?", fRel)
+		must(err)
+	}
+	return "ok"
 }
 
 type obsv struct {
@@ -674,6 +730,15 @@ func (w *world) observe() obsv {
 
 	// the real query path
 	o.expr = api.VerifTieredFromExpr(hl, om, dbName, meas)
+	w.evalExpr(&o)
+	return o
+}
+
+// evalExpr: which tier globs the FROM expression names, and how many times the real DuckDB returns
+// the rows of F over it.
+func (w *world) evalExpr(op *obsv) {
+	o := *op
+	defer func() { *op = o }()
 	var gl []string
 	globVis := 0
 	for _, m := range quoted.FindAllStringSubmatch(o.expr, -1) {
@@ -712,19 +777,18 @@ func (w *world) observe() obsv {
 	case qerr != nil:
 		o.vis = "qerr:" + strings.ReplaceAll(strings.SplitN(qerr.Error(), "\n", 2)[0], " ", "_")
 		o.visN = -1
-		return o
+		return
 	}
 	if n%int64(w.t.rows) != 0 {
 		o.vis = fmt.Sprintf("%d/%d", n, w.t.rows)
 		o.visN = -1
-		return o
+		return
 	}
 	o.visN = int(n / int64(w.t.rows))
 	o.vis = fmt.Sprint(o.visN)
 	if o.visN != globVis {
 		o.vis = fmt.Sprintf("%d(duckdb)!=%d(glob)", o.visN, globVis)
 	}
-	return o
 }
 
 func (o obsv) line() string {
@@ -812,6 +876,34 @@ func (w *world) runHistory(ti int, sibHot, sibCold bool, ops []opn) {
 	nontriv := false
 	for i := range ops {
 		op := ops[i]
+		if op.kind == "query" {
+			q := w.warmQuery()
+			emit("query", fmt.Sprintf("globs=%s vis=%s", q.globs, q.vis))
+			fresh := w.observe()
+			switch {
+			case q.visN == 0 && fresh.visN >= 1:
+				c.Fail("rows-invisible:stale-tier-cache", fmt.Sprintf("a query in the running process is routed by a stale tier-cache entry and returns none of the rows of %s (routed globs=%s; a fresh process would glob %s and see %d copy; %s)",
+					fRel, q.globs, fresh.globs, fresh.visN, q.expr), replay())
+			case q.visN >= 0 && fresh.visN >= 0 && q.visN != fresh.visN:
+				c.Fail(fmt.Sprintf("rows-%dx-vs-%dx:stale-tier-cache", q.visN, fresh.visN), fmt.Sprintf("a query in the running process (globs=%s) and a fresh process (globs=%s) disagree on how often the rows of %s are returned", q.globs, fresh.globs, fRel), replay())
+			case q.visN == 0:
+				c.Fail("invisible:query-returns-no-copy", "warm query returns none of the file's rows ("+q.expr+")", replay())
+			case q.visN < 0:
+				c.Fail("query-broken:"+strings.SplitN(q.vis, ":", 2)[0], "warm query failed ("+q.vis+"; "+q.expr+")", replay())
+			}
+			c.Tag("warm-vis:" + q.vis)
+			continue
+		}
+		if op.kind == "tick" || op.kind == "addmig" {
+			res, _ := w.runOp(op.kind, op.orc)
+			if op.kind == "tick" {
+				emit("tick "+op.orc, res)
+			} else {
+				emit("addmig "+op.orc, res+" "+w.quickState())
+				check(&ops[i], res)
+			}
+			continue
+		}
 		res, trace := w.runOp(op.kind, op.orc)
 		if op.kind == "age" {
 			emit("age", res+" "+w.quickState())
@@ -1026,6 +1118,65 @@ func main() {
 			}
 		}
 	}
+	// (4c) queries in the running process around migrate / reconcile / scan / cycle steps, with gaps
+	//      below and above the 30 s tier-cache TTL (the cache is filled by the query BEFORE the step)
+	{
+		// oracle with one fault at a named step of MigrateFile for a file of n chunks
+		at := func(t tmpl, step string, x byte) string {
+			pos := map[string]int{"record": 0, "begin": 1, "chunk": 2, "done": 2 + t.chunks, "meta": 3 + t.chunks, "delete": 4 + t.chunks, "complete": 5 + t.chunks}[step]
+			return single(pos, x)
+		}
+		q, tk := opn{"query", ""}, func(sec int) opn { return opn{"tick", fmt.Sprint(sec)} }
+		for ti := 0; ti < 2; ti++ {
+			t := w.tmpls[ti]
+			hs := [][]opn{
+				{q, {"mig", "-"}, q},
+				{q, tk(10), {"mig", "-"}, tk(10), q, tk(9), q, tk(1), q, tk(25), q},
+				{q, tk(29), {"mig", "-"}, q, tk(1), q},
+				{q, tk(31), {"mig", "-"}, q},
+				{q, {"cycle", "-"}, q, tk(40), q},
+				{q, {"mig", at(t, "delete", 'f')}, q, {"rec", "-"}, q, tk(30), q},
+				{q, {"mig", at(t, "delete", 'c')}, q, tk(5), {"rec", "-"}, q},
+				{q, {"mig", at(t, "meta", 'c')}, q, {"cycle", "-"}, q},
+				{q, {"mig", at(t, "meta", 'f')}, q, {"mig", "-"}, tk(15), q},
+				{q, {"mig", at(t, "chunk", 'r')}, q, {"mig", "-"}, q},
+				{{"mig", at(t, "delete", 'f')}, q, {"scan", "-"}, q, {"mig", "-"}, q, {"rec", "-"}, q},
+				{{"mig", at(t, "delete", 'c')}, q, {"age", ""}, q, {"cycle", "-"}, q},
+				{q, {"addmig", "2 older"}, q, {"mig", "-"}, q},
+				{{"mig", "-"}, q, {"addmig", "1 newer"}, tk(3), q},
+			}
+			for hi, h := range hs {
+				for si, sb := range sibs {
+					gi++
+					if !c.Thorough() && ti == 1 && (hi+si)%2 != int(c.Seed%2) {
+						continue
+					}
+					w.runHistory(ti, sb[0], sb[1], h)
+				}
+			}
+		}
+		// (4d) several files: the tracked file is left as a hot orphan (source delete failed / crash
+		//      before it) at the first / a middle / the last position among N cleanly migrated files
+		//      (N up to 3 x MigrationMaxConcurrent = 6), then reconciliation must still remove it.
+		t := w.tmpls[0]
+		for _, orphan := range []string{at(t, "delete", 'f'), at(t, "delete", 'c')} {
+			for _, k := range []int{1, 2, 4, 5, 6} {
+				for pi, place := range [][]opn{
+					{{"addmig", fmt.Sprintf("%d newer", k)}},
+					{{"addmig", fmt.Sprintf("%d older", k)}},
+					{{"addmig", fmt.Sprintf("%d older", (k+1)/2)}, {"addmig", fmt.Sprintf("%d newer", k)}},
+				} {
+					gi++
+					sb := sibs[1+2*(gi%2)] // the measurement still has other hot data
+					if !c.Thorough() && (k == 2 || k == 5) && pi != int(c.Seed%3) {
+						continue
+					}
+					h := cat([]opn{{"mig", orphan}}, place...)
+					w.runHistory(0, sb[0], sb[1], cat(h, opn{"rec", "-"}, q, opn{"cycle", "-"}))
+				}
+			}
+		}
+	}
 	// (5) random histories with random oracles
 	n := c.N
 	if n == 0 {
@@ -1047,6 +1198,12 @@ func main() {
 			if kind == "age" {
 				ops = append(ops, opn{"age", ""})
 				continue
+			}
+			if r.Chance(35) {
+				ops = append(ops, opn{"query", ""})
+				if r.Chance(60) {
+					ops = append(ops, opn{"tick", fmt.Sprint(vh.Pick(r, []int{1, 10, 29, 30, 31, 45}))})
+				}
 			}
 			L := r.Intn(nEv(t) + 4)
 			o := make([]byte, L)
@@ -1077,5 +1234,5 @@ func main() {
 	c.Extra["time"] = fmt.Sprintf("newCase=%v ops=%v observe=%v (duckdb=%v)", tNew.Round(time.Millisecond), tOp.Round(time.Millisecond), tObs.Round(time.Millisecond), tDuck.Round(time.Millisecond))
 	c.Finish("cases = (file size, sibling tiers of the measurement, history of mig/rec/scan/cycle ops each with a fault oracle) — " +
 		"every crash point, every single step failure and every source-read failure position (after 0..n-1 chunks) of MigrateFile for each file size × follow-up (reconcile, retry, reconcile+retry, full cycle, scan+reconcile), " +
-		"ageing past the 48 h reconcile window after every crash point / step failure followed by cycle / reconcile / scan+retry, all two-fault oracles for the small file, faults inside the follow-up, and random histories; non-trivial = at least one injected failure/crash was consumed; distinct = distinct op text")
+		"queries in the running process (30 s tier cache, virtual clock) before/after each step with gaps below/above the TTL, a hot orphan at the first/middle/last position among up to 6 other cleanly migrated files, ageing past the 48 h reconcile window after every crash point / step failure followed by cycle / reconcile / scan+retry, all two-fault oracles for the small file, faults inside the follow-up, and random histories; non-trivial = at least one injected failure/crash was consumed; distinct = distinct op text")
 }
